@@ -3,6 +3,7 @@ package props
 import (
 	"fmt"
 	"math/big"
+	"strings"
 	"time"
 
 	"cosmossdk.io/math"
@@ -227,6 +228,9 @@ func (w *c08World) opL2Withdraw() {
 		amt = bal
 	}
 	to := mon.Pick(w.rng, tc.L1.Users).String()
+	if w.rng.Chance(15) {
+		to = strings.ToUpper(to) // the same L1 account under bech32's all-upper-case spelling; L2 records the string as given
+	}
 	res := tc.L2Withdraw(u, to, l2d, amt)
 	w.run.Evaluations++
 	w.logf("L2 withdraw %s%s by=%s -> %s", amt, d, u.Name, res.Class)
